@@ -93,3 +93,57 @@ def read_corpus(prop_id):
     if not os.path.exists(p):
         return []
     return [json.loads(l) for l in open(p) if l.strip() and not l.startswith("#")]
+
+
+# ---------------------------------------------------------------- sequences
+def build_cube(shape, cube_id, fam, wseed, with_shape=True, kind="numpy", shift=0):
+    """A cube with a self-identifying payload and a WCS of the given family."""
+    import random
+    from ndcube import NDCube
+    import wcsfam as W
+    rng = random.Random(wseed)
+    wcs = W.make_wcs(rng, tuple(shape), fam, with_shape)
+    if shift and isinstance(wcs, W.ProbeWCS):
+        wcs.b = wcs.b + shift
+    return NDCube(payload(tuple(shape), cube_id, kind), wcs=wcs, meta={"cube": cube_id})
+
+
+def build_sequence(shapes, common_axis, fam="probe", wseed=0):
+    from ndcube import NDCubeSequence
+    cubes = [build_cube(sh, k, fam, wseed, shift=16 * k) for k, sh in enumerate(shapes)]
+    return NDCubeSequence(cubes, meta={"seq": 1}, common_axis=common_axis), cubes
+
+
+def world_lockstep(result_cube, sources, rng, exact, limit=24):
+    """Every sampled element of `result_cube` must report, through its own WCS, the world values
+    that the source cube it came from (identified by the payload) reports for the source element.
+    Returns None or a failure description."""
+    import wcsfam as W
+    data = materialize(result_cube.data)
+    if data.size == 0:
+        return None
+    sll = result_cube.wcs.low_level_wcs
+    if sll.pixel_n_dim != data.ndim:
+        return f"pixel_n_dim {sll.pixel_n_dim} != data.ndim {data.ndim}"
+    cids = np.unique(np.asarray(data).astype(np.int64) // 10**6)
+    if len(cids) != 1:
+        return f"result cube mixes elements of source cubes {cids.tolist()}"
+    src_cube = sources[int(cids[0])]
+    bll = src_cube.wcs.low_level_wcs
+    names, snames = list(bll.world_axis_names), list(sll.world_axis_names)
+    if not (len(set(names)) == len(names) and all(nm in names for nm in snames)):
+        return f"world axis names {snames} are not a selection of {names}"
+    keep = [names.index(nm) for nm in snames]
+    _, src_all = decode(data, src_cube.data.shape)
+    for r in all_indices(data.shape, limit, rng):
+        src = [int(a[tuple(r)]) for a in src_all]
+        wv = W.p2w(sll, r[::-1])
+        bv = W.p2w(bll, src[::-1])
+        want = [bv[i] for i in keep]
+        if not W.close(wv, want, exact):
+            return f"element {r} of a piece from cube {int(cids[0])} (source {src}) reports world {wv}, its source cube says {want}"
+    return None
+
+
+def gen_bound(rng, n, extra=2):
+    return None if rng.random() < 0.25 else rng.randint(-n - extra, n + extra)
